@@ -52,7 +52,7 @@ Print Assumptions C19_client_address_is_host.
    the undashed UUID and a JSON property list (plus the BungeeGuard token property) separated by NULs" *)
 Theorem C19_legacy_address : forall (ba : option (bytes -> option bytes)) fw ct c vhost,
   used_forwarding None fw = true ->
-  handshake_addr None ba spec_props_json fw ct c vhost
+  handshake_addr None ba impl_props_json fw ct c vhost
   = Some (srv_addr c ++ [0] ++ host_str (remote c) ++ [0] ++ undashed (uuid c) ++ [0]
           ++ json_array ((match props c with Some l => l | None => [] end) ++ appended fw ct c)).
 Proof. exact legacy_address_thm. Qed.
@@ -62,9 +62,9 @@ Print Assumptions C19_legacy_address.
    property strings contain *)
 Theorem C19_four_parts : forall fw ct c,
   nz (srv_addr c) = true -> nz (host_str (remote c)) = true ->
-  split_nul (forwarding_address (spec_props_json fw ct c) c)
+  split_nul (forwarding_address (impl_props_json fw ct c) c)
   = [srv_addr c; host_str (remote c); undashed (uuid c); json_array (props_list fw ct c)].
-Proof. exact four_parts_thm. Qed.
+Proof. exact impl_four_parts_thm. Qed.
 Print Assumptions C19_four_parts.
 
 (* "parseable by a BungeeCord backend": the reference parser (exactly four parts; a JSON array of
@@ -74,30 +74,38 @@ Print Assumptions C19_four_parts.
 Theorem C19_legacy_parse : forall fw ct c,
   nz (srv_addr c) = true -> nz (host_str (remote c)) = true ->
   forallb property_transparent (props_list fw ct c) = true ->
-  bungee_parse (forwarding_address (spec_props_json fw ct c) c)
+  bungee_parse (forwarding_address (impl_props_json fw ct c) c)
   = Some (srv_addr c, host_str (remote c), undashed (uuid c), props_list fw ct c).
-Proof. exact legacy_parse_thm. Qed.
+Proof. exact impl_legacy_parse_thm. Qed.
 Print Assumptions C19_legacy_parse.
 
-(* the code (impl_props_json) and the demanded printer agree except on the recorded finding C19-1 *)
-Theorem C19_impl_eq_spec_off_trigger : forall ha ba fw ct c vhost,
-  trigger_null fw ct c = false ->
+(* the code as it is now (impl_props_json, after fix 5dc4db8) is the demanded behaviour (spec_props_json:
+   always a JSON property list), for every hook, mode, client type and input *)
+Theorem C19_impl_is_spec : forall ha ba fw ct c vhost,
   handshake_addr ha ba impl_props_json fw ct c vhost = handshake_addr ha ba spec_props_json fw ct c vhost.
-Proof. exact impl_spec_address_thm. Qed.
-Print Assumptions C19_impl_eq_spec_off_trigger.
+Proof. exact address_impl_is_spec. Qed.
+Print Assumptions C19_impl_is_spec.
 
-(* finding C19-1: legacy forwarding, nil property slice (offline-mode profile), nothing appended:
-   part four is the literal null, which the reference parser rejects; the demanded printer gives [] *)
-Theorem C19_null_refuted :
+(* facts about the PRE-fix code (prefix_props_json, before commit 5dc4db8; finding C19-1, fixed):
+   it agreed with the demanded printer off the trigger ... *)
+Theorem C19_prefix_eq_spec_off_trigger : forall ha ba fw ct c vhost,
+  trigger_null fw ct c = false ->
+  handshake_addr ha ba prefix_props_json fw ct c vhost = handshake_addr ha ba spec_props_json fw ct c vhost.
+Proof. exact prefix_spec_address_thm. Qed.
+Print Assumptions C19_prefix_eq_spec_off_trigger.
+
+(* ... and on it (legacy forwarding, nil property slice of an offline-mode profile, nothing appended)
+   part four was the literal null, which the reference parser rejects; the demanded printer gives [] *)
+Theorem C19_prefix_null_refuted :
   trigger_null FwLegacy CtOther null_witness = true /\
-  handshake_addr None None impl_props_json FwLegacy CtOther null_witness [97]
+  handshake_addr None None prefix_props_json FwLegacy CtOther null_witness [97]
     = Some (forwarding_address json_null null_witness) /\
   bungee_parse (forwarding_address json_null null_witness) = None /\
   bungee_parse (forwarding_address (spec_props_json FwLegacy CtOther null_witness) null_witness)
     = Some ([49;48;46;48;46;48;46;55;58;49], [49;46;50;46;51;46;52],
             undashed [0;1;2;3;4;5;6;7;8;9;10;11;12;13;14;15], []).
-Proof. exact null_refuted. Qed.
-Print Assumptions C19_null_refuted.
+Proof. exact prefix_null_refuted. Qed.
+Print Assumptions C19_prefix_null_refuted.
 
 (* premises are satisfiable *)
 Example C19_host_first_nonvacuous :
@@ -107,7 +115,7 @@ Example C19_host_first_nonvacuous :
   let ba := Some (fun y : bytes => Some (y ++ [0; 121])) in
   let c := mkCtx [98;58;49] [49;46;50;46;51;46;52;58;53] [] None (v ++ [58;50;53]) in
   used_forwarding ha FwLegacy = false /\
-  server_address ha ba spec_props_json FwLegacy CtModernForge c = Some (h ++ [0;70;77;76;51;0]) /\
+  server_address ha ba impl_props_json FwLegacy CtModernForge c = Some (h ++ [0;70;77;76;51;0]) /\
   player_vhost c = v.
 Proof. exact host_first_nonvacuous. Qed.
 
